@@ -3,7 +3,7 @@ from hypothesis import strategies as st
 
 from anytree import ChildResolverError, Resolver, ResolverError, RootResolverError, Walker
 
-from .. import forest, resolver_ref as rr, shapes, strategies
+from .. import forest, refs, resolver_ref as rr, shapes, strategies
 from ..core import Violation
 
 PROP_ID = "C07"
@@ -71,14 +71,35 @@ def effective(path, sep):
     return [p for p in parts if p not in ("", ".")]
 
 
+def siblings_unique(nodes, pathattr, ic):
+    for node in nodes:
+        seen = set()
+        for child in node.children:
+            key = rr.attr(child, pathattr)
+            key = key.lower() if ic else key
+            if key in seen:
+                return False
+            seen.add(key)
+    return True
+
+
 def check_case(case, acc):
     nodes = rr.build(case)
     labels = forest.Labels(nodes)
+    _once(case, acc, nodes, labels)
+    for op in case.get("mutations", []):
+        # paths denote nodes of the CURRENT tree: re-check after moves, detaches, re-orderings and renames
+        refs.mutate_tree(nodes, op + [case["pathattr"]] if op[0] == "rename" else op)
+        _once(case, acc, nodes, labels)
+        acc.tag("rechecked_after_mutation")
+
+
+def _once(case, acc, nodes, labels):
     sep, pathattr, ic = case["sep"], case["pathattr"], case["ignorecase"]
     before = forest.snapshot(nodes, labels)
     nontrivial = False
     checked0 = acc.tags["roundtrip_paths"] + acc.tags["generated_paths"]
-    if case.get("roundtrip", True):
+    if case.get("roundtrip", True) and siblings_unique(nodes, pathattr, ic):
         walker = Walker()
         mask = case.get("flip", 0)
         for n in nodes:
@@ -91,6 +112,8 @@ def check_case(case, acc):
             if ic:
                 abspath = flip_case(abspath, mask) if sep.swapcase() == sep else abspath
             for m in nodes:
+                if rr.root_of(m) is not rr.root_of(n):
+                    continue  # different trees after a detach: no path between them
                 up, _, down = walker.walk(m, n)
                 rel = sep.join([".."] * len(up) + [rr.attr(x, pathattr) for x in down])
                 if ic and sep.swapcase() == sep:
@@ -148,9 +171,21 @@ def random_cases(draw):
     pathattr = draw(st.sampled_from(["name", "name", "id"]))
     ic = draw(st.booleans())
     names = [draw(st.one_of(name_strategy(sep), name_strategy(sep), st.integers(0, 12).map(lambda i: {"int": i}))) for _ in range(size)]
-    unique = draw(st.integers(0, 9)) < 8
+    unique = draw(st.integers(0, 9)) < 7
     if unique:
         names = uniquify(names, parents)
+    else:
+        # duplicates among siblings, also names that differ only in case: 'first child whose attribute equals it' must hold
+        last_sibling = {}
+        for i in range(1, size):
+            prev = last_sibling.get(parents[i])
+            if prev is not None and not isinstance(names[prev], dict) and draw(st.booleans()):
+                variant = draw(st.sampled_from(["same", "swap", "upper", "lower"]))
+                base = names[prev]
+                names[i] = {"same": base, "swap": base.swapcase(), "upper": base.upper(), "lower": base.lower()}[variant]
+                if len(names[i]) != len(base) or names[i] in (".", ".."):
+                    names[i] = base
+            last_sibling[parents[i]] = i
     texts = [str(n["int"]) if isinstance(n, dict) else n for n in names]
     comp = st.one_of(st.sampled_from(texts), st.sampled_from(texts), st.sampled_from(texts).map(lambda s: s.swapcase()), st.sampled_from(["..", "..", ".", "", "zz", "a"]), name_strategy(sep))
     paths = []
@@ -165,7 +200,8 @@ def random_cases(draw):
         if draw(st.integers(0, 5)) == 0:
             path = path + sep
         paths.append([draw(st.integers(0, size - 1)), path])
-    return {"shape": shape, "names": names, "sep": sep, "pathattr": pathattr, "ignorecase": ic, "roundtrip": unique, "flip": draw(st.integers(0, 65535)), "paths": paths}
+    muts = draw(strategies.tree_mutations(rename_values=st.sampled_from(texts)))
+    return {"shape": shape, "names": names, "sep": sep, "pathattr": pathattr, "ignorecase": ic, "roundtrip": unique, "flip": draw(st.integers(0, 65535)), "paths": paths, "mutations": muts}
 
 
 ENUM_COMPS = ["a", "b", "A", "..", ".", "", "zz"]
@@ -178,8 +214,10 @@ def _enum_cases(max_nodes, index, count):
     for shape in shapes.trees_upto(max_nodes):
         size = shapes.shape_size(shape)
         parents = shapes.shape_to_parents(shape)
-        names = uniquify([["a", "b", "A"][(i + (parents[i] or 0)) % 3] for i in range(size)], parents)
-        for ic in (False, True):
+        base_names = [["a", "b", "A"][(i + (parents[i] or 0)) % 3] for i in range(size)]
+        for ic, dup in ((False, False), (True, False), (True, True), (False, True)):
+            # dup: siblings may be called 'a' and 'A' (equal when ignorecase): no round trip, but 'first matching child' applies
+            names = ["aA"[i % 2] for i in range(size)] if dup else uniquify(base_names, parents)
             for start in range(size):
                 k += 1
                 if k % count != index:
@@ -199,10 +237,17 @@ def plan(tier, seed):
     max_nodes = 3 if tier == "quick" else 5
     tasks = [{"engine": "enum", "max_nodes": max_nodes, "index": i, "count": nshards} for i in range(nshards)]
     tasks += [{"engine": "hyp", "examples": examples, "seed": seed * 1000 + i} for i in range(nshards)]
+    if tier == "thorough":
+        # coverage-guided supplement: 16 libFuzzer campaigns on the same strategy + oracle (skipped if atheris is unavailable)
+        tasks += [{"engine": "fuzz", "runs": 4000, "seed": seed * 100 + i + 1} for i in range(nshards)]
     return tasks
 
 
 def run_task(task, acc):
+    if task["engine"] == "fuzz":
+        from ..core import run_fuzz_task
+
+        return run_fuzz_task(PROP_ID, task, acc)
     if task["engine"] == "enum":
         acc.run_enum(check_case, _enum_cases(task["max_nodes"], task["index"], task["count"]))
     else:
